@@ -40,6 +40,10 @@ func caseEdges(fn *ssa.Function, tag eng.VM, k *types.Const) []eng.Edge {
 }
 
 func runC10(c *eng.Ctx) {
+	c.Rule("R01.6", "K1")
+	ruleSearchPredicates(c)
+	c.Rule("R06.4", "K2")
+	ruleReadonlyReappliedUnconditionally(c)
 	c.Rule("R03.12", "K5")
 	ruleReadAtAnswersFromTheFile(c)
 	p := c.P
